@@ -93,11 +93,33 @@ class _MathFacade(types.ModuleType):
         return math.isclose(a, b, rel_tol=rel_tol, abs_tol=abs_tol)
 
 
+class _NpLinalg:
+    @staticmethod
+    def norm(x, ord=None, axis=None, keepdims=False):
+        a = np.asarray(x)
+        if a.dtype != object:
+            return np.linalg.norm(x, ord=ord, axis=axis, keepdims=keepdims)
+        if ord is not None or keepdims:
+            raise Unmodelled("np.linalg.norm with ord/keepdims on symbolic data")
+        if axis is None:
+            return norm_model(a)
+        if a.ndim == 2 and axis in (1, -1):
+            out = np.empty(a.shape[0], dtype=object)
+            for i in range(a.shape[0]):
+                out[i] = norm_model(a[i])
+            return out
+        raise Unmodelled("np.linalg.norm: unsupported axis on symbolic data")
+
+    def __getattr__(self, name):
+        return getattr(np.linalg, name)
+
+
 class _NpFacade(types.ModuleType):
-    """forwards to numpy; isnan has no object loop"""
+    """forwards to numpy; isnan has no object loop; linalg.norm -> sqrt(sum of squares) model"""
 
     def __init__(self):
         super().__init__("np_facade")
+        self.linalg = _NpLinalg()
 
     def __getattr__(self, name):
         return getattr(np, name)
@@ -481,6 +503,10 @@ def install(choice_sets=False):
     GR.math = _MathFacade()
     STUBS.append("grading.chop/relations: int()->identity/floor on proxies; relations._validate_count->same "
                  "comparison without eval(); relations.np.isnan->False on proxies; grading.math.isclose->same formula")
+
+    import classy_blocks.optimize.cell as CE
+    CE.np = _NpFacade()
+    STUBS.append("optimize.cell: np.linalg.norm -> sqrt(sum of squares) model (same as scipy.linalg.norm)")
 
     import classy_blocks.items.wires.manager as MG
     MG.set = symset
